@@ -19,7 +19,7 @@ use constriction::UnwrapInfallible;
 use core::convert::Infallible;
 use hcommon::hexwords;
 use smallvec::SmallVec;
-use vengine::{note, vcheck_if, vfail_if, CaseResult, Ctx, Src};
+use vengine::{note, vcheck, vcheck_if, vfail_if, CaseResult, Ctx, Src};
 
 #[derive(Clone, Debug, PartialEq)]
 enum SymKind {
@@ -540,3 +540,134 @@ pub fn c16_bits(src: &mut Src, ctx: &mut Ctx) -> CaseResult {
 
 #[allow(dead_code)]
 type _Unused = SmallVec<[u8; 2]>;
+
+// ---------------------------------------------------------------------------------------------
+// Batch forms of the bit-level coders (provided methods of `WriteBitStream` / `ReadBitStream`, the `_reverse` forms of
+// the stack coder, the `DecodeSymbols` iterator): they are the per-symbol loop.
+
+/// consumes a batch-decoding iterator through collect, next + size_hint, or nth (see h_stream::c01::consume_batch)
+fn consume_bits<E: core::fmt::Debug>(style: usize, expect: &[usize], mut it: impl Iterator<Item = Result<usize, E>>) -> Result<Vec<usize>, String> {
+    let k = expect.len();
+    match style {
+        0 => it.collect::<Result<Vec<_>, _>>().map_err(|e| format!("{:?}", e)),
+        1 => {
+            let mut out = Vec::new();
+            loop {
+                let left = k - out.len().min(k);
+                let (lo, hi) = it.size_hint();
+                if lo > left || hi.map_or(false, |h| h < left) {
+                    return Err(format!("size_hint() = ({}, {:?}) with {} items still to come", lo, hi, left));
+                }
+                match it.next() {
+                    Some(Ok(s)) => out.push(s),
+                    Some(Err(e)) => return Err(format!("{:?}", e)),
+                    None => return Ok(out),
+                }
+                if out.len() > k + 1 {
+                    return Err("the iterator yields more items than codebooks were supplied".into());
+                }
+            }
+        }
+        _ => {
+            if k == 0 {
+                return it.collect::<Result<Vec<_>, _>>().map_err(|e| format!("{:?}", e));
+            }
+            let j = (k - 1) / 2;
+            let mut out: Vec<usize> = expect[..j].to_vec();
+            match it.nth(j) {
+                Some(Ok(s)) => out.push(s),
+                Some(Err(e)) => return Err(format!("{:?}", e)),
+                None => return Err(format!("nth({}) returned None with {} codebooks supplied", j, k)),
+            }
+            for r in it {
+                match r {
+                    Ok(s) => out.push(s),
+                    Err(e) => return Err(format!("{:?}", e)),
+                }
+            }
+            Ok(out)
+        }
+    }
+}
+
+macro_rules! batch_script {
+    ($name:ident, $W:ty, $label:literal) => {
+        fn $name(src: &mut Src, ctx: &mut Ctx) -> CaseResult {
+            ctx.label(concat!("batch:", $label));
+            let nsym = src.range_usize(1, 7);
+            let hw: Vec<u32> = (0..nsym).map(|_| 1 + src.below(9) as u32).collect();
+            let henc = EncoderHuffmanTree::from_probabilities::<u32, _>(&hw);
+            let hdec = DecoderHuffmanTree::from_probabilities::<u32, _>(&hw);
+            let n = src.below_usize(if ctx.tier == 0 { 14 } else { 80 });
+            let msg: Vec<usize> = (0..n).map(|_| src.below_usize(nsym)).collect();
+            let style = src.below_usize(3);
+            note!(ctx, "word {} Huffman weights {:?} message {:?} style {}", $label, hw, msg, style);
+            let to_u64 = |v: &[$W]| -> Vec<u64> { v.iter().map(|&x| x as u64).collect() };
+            // ---- stack: the `_reverse` forms push the last symbol first, so that popping yields the message in order
+            let mut a = StackCoder::<$W, Vec<$W>>::new();
+            for s in msg.iter().rev() {
+                a.encode_symbol(*s, &henc).map_err(|e| vengine::Fail::new("C16/stack_symbol_encode_failed", format!("{:?}", e)))?;
+            }
+            let wa = a.into_compressed().unwrap_infallible();
+            let mut b = StackCoder::<$W, Vec<$W>>::new();
+            let r = b.encode_symbols_reverse(msg.iter().map(|s| (*s, &henc)));
+            vcheck!(r.is_ok(), "C16/stack_batch_encode_failed", "encode_symbols_reverse -> {:?}", r);
+            let wb = b.into_compressed().unwrap_infallible();
+            vcheck!(wa == wb, "C16/stack_batch_encode_differs_from_loop", "encode_symbols_reverse left {}, the per-symbol loop {}", hexwords(&to_u64(&wb)), hexwords(&to_u64(&wa)));
+            let mut c = StackCoder::<$W, Vec<$W>>::new();
+            let r = c.encode_iid_symbols_reverse(msg.iter().cloned(), &henc);
+            vcheck!(r.is_ok(), "C16/stack_batch_encode_failed", "encode_iid_symbols_reverse -> {:?}", r);
+            let wc = c.into_compressed().unwrap_infallible();
+            vcheck!(wa == wc, "C16/stack_batch_encode_differs_from_loop", "encode_iid_symbols_reverse left {}, the per-symbol loop {}", hexwords(&to_u64(&wc)), hexwords(&to_u64(&wa)));
+            let mut d = StackCoder::<$W, Vec<$W>>::new();
+            let r = d.encode_symbols(msg.iter().rev().map(|s| (*s, &henc)));
+            vcheck!(r.is_ok(), "C16/stack_batch_encode_failed", "encode_symbols -> {:?}", r);
+            let wd = d.into_compressed().unwrap_infallible();
+            vcheck!(wa == wd, "C16/stack_batch_encode_differs_from_loop", "encode_symbols (reversed input) left {}, the per-symbol loop {}", hexwords(&to_u64(&wd)), hexwords(&to_u64(&wa)));
+            // batch decoding from the stack
+            let mut dec = match StackCoder::<$W, Vec<$W>>::from_compressed(wa.clone()) {
+                Ok(x) => x,
+                Err(_) => return Err(vengine::Fail::new("C16/stack_reimport_rejected", "from_compressed rejected the coder's own export".to_string())),
+            };
+            let got = if style == 0 || n % 2 == 0 { consume_bits(style, &msg, dec.decode_symbols(core::iter::repeat(&hdec).take(n))) } else { consume_bits(style, &msg, dec.decode_iid_symbols(n, &hdec)) };
+            vcheck!(got.as_ref() == Ok(&msg), "C16/stack_batch_decode_mismatch", "batch decoding (style {}) returned {:?}, encoded {:?}", style, got, msg);
+            vcheck!(dec.is_empty(), "C16/stack_not_empty_after_batch_decode", "{} bits left after decoding the whole message", dec.len());
+            // ---- queue
+            let mut qa = QueueEncoder::<$W, Vec<$W>>::new();
+            for s in msg.iter() {
+                qa.encode_symbol(*s, &henc).map_err(|e| vengine::Fail::new("C16/queue_symbol_encode_failed", format!("{:?}", e)))?;
+            }
+            let va = qa.into_compressed().unwrap_infallible();
+            let mut qb = QueueEncoder::<$W, Vec<$W>>::new();
+            let r = qb.encode_symbols(msg.iter().map(|s| (*s, &henc)));
+            vcheck!(r.is_ok(), "C16/queue_batch_encode_failed", "encode_symbols -> {:?}", r);
+            let vb = qb.into_compressed().unwrap_infallible();
+            vcheck!(va == vb, "C16/queue_batch_encode_differs_from_loop", "encode_symbols left {}, the per-symbol loop {}", hexwords(&to_u64(&vb)), hexwords(&to_u64(&va)));
+            let mut qc = QueueEncoder::<$W, Vec<$W>>::new();
+            let r = qc.encode_iid_symbols(msg.iter().cloned(), &henc);
+            vcheck!(r.is_ok(), "C16/queue_batch_encode_failed", "encode_iid_symbols -> {:?}", r);
+            let vc = qc.into_compressed().unwrap_infallible();
+            vcheck!(va == vc, "C16/queue_batch_encode_differs_from_loop", "encode_iid_symbols left {}, the per-symbol loop {}", hexwords(&to_u64(&vc)), hexwords(&to_u64(&va)));
+            let mut qd = QueueDecoder::<$W, _>::from_compressed(Cursor::new_at_write_beginning(va));
+            let got = if style == 0 || n % 2 == 1 { consume_bits(style, &msg, qd.decode_symbols(core::iter::repeat(&hdec).take(n))) } else { consume_bits(style, &msg, qd.decode_iid_symbols(n, &hdec)) };
+            vcheck!(got.as_ref() == Ok(&msg), "C16/queue_batch_decode_mismatch", "batch decoding (style {}) returned {:?}, encoded {:?}", style, got, msg);
+            if n >= 3 {
+                ctx.nontrivial();
+            }
+            Ok(())
+        }
+    };
+}
+batch_script!(batch_u8, u8, "u8");
+batch_script!(batch_u16, u16, "u16");
+batch_script!(batch_u32, u32, "u32");
+batch_script!(batch_u64, u64, "u64");
+
+pub fn c16_batch(src: &mut Src, ctx: &mut Ctx) -> CaseResult {
+    match src.below(4) {
+        0 => batch_u8(src, ctx),
+        1 => batch_u16(src, ctx),
+        2 => batch_u32(src, ctx),
+        _ => batch_u64(src, ctx),
+    }
+}
